@@ -138,11 +138,18 @@ type QeIdentitySpec struct {
 
 func ts(t time.Time) string { return t.UTC().Format("2006-01-02T15:04:05Z") }
 
+// levelDate gives the k-th listed level a date that is ordered neither like the list nor against it: the listed order of levels is
+// what counts, whatever their dates say.
+func levelDate(k int) string {
+	off := []int{1, 5, 0, 7, 3, 9, 2, 8, 4, 6}[k%10]
+	return ts(time.Date(2022, time.January, 1, 0, 0, 0, 0, time.UTC).AddDate(0, 2*off, k/10))
+}
+
 func modLevels(ls []ModLevel) []jsLevel {
 	out := []jsLevel{}
-	for _, l := range ls {
+	for k, l := range ls {
 		v := l.Isvsvn
-		out = append(out, jsLevel{Tcb: jsTcb{Isvsvn: &v}, TcbDate: "2023-08-09T00:00:00Z", Status: l.Status})
+		out = append(out, jsLevel{Tcb: jsTcb{Isvsvn: &v}, TcbDate: levelDate(k), Status: l.Status})
 	}
 	return out
 }
@@ -154,8 +161,8 @@ func (s TcbInfoSpec) Member() []byte {
 	for _, id := range s.Identities {
 		j.Identities = append(j.Identities, jsModIdentity{ID: id.ID, Mrsigner: s.Mrsigner, Attrs: s.Attrs, Mask: s.AttrsMask, Levels: modLevels(id.Levels)})
 	}
-	for _, l := range s.Levels {
-		jl := jsLevel{TcbDate: "2023-08-09T00:00:00Z", Status: l.Status}
+	for k, l := range s.Levels {
+		jl := jsLevel{TcbDate: levelDate(k), Status: l.Status}
 		p := l.Pce
 		jl.Tcb.Pcesvn = &p
 		for i := 0; i < 16; i++ {
@@ -223,8 +230,11 @@ func Wrap(members [][2]string) []byte {
 }
 
 // SigHex signs raw with key and returns the JSON string literal of the hex signature.
-func SigHex(key *ecdsa.PrivateKey, raw []byte) string {
-	return `"` + hex.EncodeToString(SignRS(key, raw)) + `"`
+func SigHex(key *ecdsa.PrivateKey, raw []byte) string { return SigHexShape(key, raw, "") }
+
+// SigHexShape: deterministic (a world is a function of its seed), optionally with a short scalar.
+func SigHexShape(key *ecdsa.PrivateKey, raw []byte, shape string) string {
+	return `"` + hex.EncodeToString(SignRSDetShape(key, raw, "doc", shape)) + `"`
 }
 
 // ---------------------------------------------------------------------------------------
